@@ -3,6 +3,7 @@ package checks
 import (
 	"encoding/json"
 	"fmt"
+	"os"
 	"runtime"
 	"strings"
 	"time"
@@ -154,6 +155,11 @@ func c02(r *ev.Result, tier string) {
 	/* The Ctrl+I seam: the real Shell's insert enters the input channel as
 	exactly one entry, whatever its size. */
 	runTermSeam(r, "c02", 0, "c02insert")
+	{
+		base := ev.Scratch("c02bin-")
+		c02RealTwoListen(r, base)
+		os.RemoveAll(base)
+	}
 	runTermSeamEnv(r, "c02i2", 0, "c02insert", []string{"VERIF_SEAM=insert-twice"})
 	/* The operator's terminal type: lines typed or pasted arrive whatever
 	TERM says (a terminal asked to bracket pastes does so). */
